@@ -237,7 +237,10 @@ class Client:
             # a pipelined reader keeps several get_message() Deferreds
             # outstanding and re-issues one from each callback
             depth = 1
-            if self.world.opts.get("pipeline"):
+            if self.world.opts.get("pipeline") == "deep":
+                # a consumer that keeps a long window of reads outstanding
+                depth = 11 + self.world.tape.choose(15, "pipeline_deep")
+            elif self.world.opts.get("pipeline"):
                 depth = 1 + self.world.tape.choose(3, "pipeline")
                 if depth > 1:
                     self.world.sim.note("probe.pipelined_get_message")
@@ -343,6 +346,8 @@ class MailboxWorld:
                 self.tape.choose(3, "ral") == 0:
             self.sim.net.read_after_lose = True
             self.sim.note("probe.frames_dispatched_after_loseConnection")
+        if self.opts.get("pipeline") == "deep" or self.opts.get("msg_burst"):
+            self.sim.msg_burst = True
         self.unwelcome_done = False
         self._planned = []
         self.port_down = False
